@@ -415,9 +415,6 @@ LOOP:
 	ex.CalledAs = map[string]string{}
 	for _, l := range sp.levels {
 		for _, o := range l.own {
-			if o == sp.help {
-				continue
-			}
 			ex.Vals[o.path] = o.render()
 			ex.Called[o.path] = o.called
 			ex.CalledAs[o.path] = o.calledAs
